@@ -273,6 +273,41 @@ Section Proofs.
       + exists s', l. split; [now rewrite set_get_other|assumption].
   Qed.
 
+  (* Set operations on DIFFERENT identifiers commute: whatever the order, every
+     identifier reads the same and every identity is judged the same.  (The two
+     maps may list their entries in a different order; nothing observable depends on
+     it.)  Hence the outcome of a group of concurrent SetValidPeers calls on pairwise
+     different identifiers is order-independent, and the correspondence compares
+     such a group with the model run in index order. *)
+  Lemma set_commute fx v s1 p1 s2 p2 :
+    s1 <> s2 -> (match v with Some m => wf m | None => True end) ->
+    (forall s, vp_get (vp_set fx (vp_set fx v s1 p1) s2 p2) s =
+               vp_get (vp_set fx (vp_set fx v s2 p2) s1 p1) s) /\
+    (forall i, vp_valid fx (vp_set fx (vp_set fx v s1 p1) s2 p2) i =
+               vp_valid fx (vp_set fx (vp_set fx v s2 p2) s1 p1) i).
+  Proof.
+    intros N W.
+    assert (G : forall s, vp_get (vp_set fx (vp_set fx v s1 p1) s2 p2) s =
+                          vp_get (vp_set fx (vp_set fx v s2 p2) s1 p1) s).
+    { intros s. unfold Peers.vp_set. simpl.
+      destruct (sid_eqb s s1) eqn:E1; destruct (sid_eqb s s2) eqn:E2.
+      - apply sid_eqb_spec in E1. apply sid_eqb_spec in E2. congruence.
+      - apply sid_eqb_spec in E1. subst s. apply sid_eqb_neq in E2.
+        now rewrite lookup_upd_other, !lookup_upd_same by assumption.
+      - apply sid_eqb_spec in E2. subst s. apply sid_eqb_neq in E1.
+        now rewrite lookup_upd_same, lookup_upd_other, lookup_upd_same by assumption.
+      - apply sid_eqb_neq in E1. apply sid_eqb_neq in E2.
+        now rewrite !lookup_upd_other by assumption. }
+    split; [exact G|]. intros i. apply eq_true_iff_eq.
+    assert (W1 : forall a pa b pb, match vp_set fx (vp_set fx v a pa) b pb with Some m => wf m | None => True end).
+    { intros a pa b pb. apply set_wf. now apply set_wf. }
+    rewrite (valid_iff fx (vp_set fx (vp_set fx v s1 p1) s2 p2) i (W1 s1 p1 s2 p2)),
+            (valid_iff fx (vp_set fx (vp_set fx v s2 p2) s1 p1) i (W1 s2 p2 s1 p1)).
+    split; (intros [H|[s [l [Hg Hi]]]]; [discriminate|right; exists s, l; split; [|assumption]]).
+    - now rewrite <- G.
+    - now rewrite G.
+  Qed.
+
   Lemma set_local fx m s peers : wf m ->
     (exists l, vp_get (vp_set fx (Some m) s peers) s = Some l /\ NoDup l /\
                forall x, In x l <-> In x (map (fid fx) peers)) /\
